@@ -135,6 +135,12 @@ func Open(dir string, o Options) (*Env, error) {
 		opt.MaxRowsPerSegment = util.DefaultMaxRowsPerSegment4TsStore
 	}
 
+	// ts-store gets a logical clock from ts-meta that grows with every process start; series ids are
+	// (clock, per-process counter), so a restart must bump it or ids of new series would collide.
+	if err := bumpClock(dir); err != nil {
+		return nil, err
+	}
+
 	loadCtx := &metaclient.LoadCtx{LoadCh: make(chan *metaclient.DBPTCtx, 16)}
 	stop := make(chan struct{})
 	go func() {
@@ -165,10 +171,15 @@ func Open(dir string, o Options) (*Env, error) {
 	e := &Env{Dir: dir, Eng: eng, client: client, loadCtx: loadCtx, stop: stop}
 	durs := map[uint64]*meta2.ShardDurationInfo{ShardID: durationInfo()}
 	briefs := map[string]*meta2.DatabaseBriefInfo{DB: {Name: DB, EnableTagArray: false}}
-	if err := eng.Open(durs, briefs, client); err != nil {
+	// ts-store never loads partitions through Engine.Open: ts-meta assigns each (db, pt) to the
+	// store, which loads it with Engine.Assign (shards are opened, their WAL replayed, and the
+	// partition takes the node's logical clock for series-id generation). Same path here.
+	if err := eng.Open(nil, briefs, client); err != nil {
 		return nil, fmt.Errorf("engine open: %w", err)
 	}
-	eng.CreateDBPT(DB, PT, false)
+	if err := eng.Assign(1, 1, DB, PT, 0, durs, briefs[DB], client, nil); err != nil {
+		return nil, fmt.Errorf("engine assign: %w", err)
+	}
 	if e.Shard() == nil {
 		if err := eng.CreateShard(DB, RP, PT, ShardID, timeRangeInfo(), &meta2.MeasurementInfo{EngineType: config.TSSTORE}); err != nil {
 			return nil, fmt.Errorf("create shard: %w", err)
@@ -183,6 +194,19 @@ func Open(dir string, o Options) (*Env, error) {
 	}
 	e.IndexFlush()
 	return e, nil
+}
+
+func bumpClock(dir string) error {
+	if err := os.MkdirAll(dir, 0750); err != nil {
+		return err
+	}
+	p := filepath.Join(dir, "vclock")
+	n := uint64(1)
+	if b, err := os.ReadFile(p); err == nil {
+		fmt.Sscanf(string(b), "%d", &n)
+	}
+	metaclient.LogicClock = n
+	return os.WriteFile(p, []byte(fmt.Sprintf("%d", n+1)), 0640)
 }
 
 func (e *Env) Shard() engine.Shard {
